@@ -45,6 +45,10 @@ def jobs(tier):
     for D in DS:
         J.append(dict(side="str2bit", D=D))
         J.append(dict(side="str2dna", D=D))
+    # two LONG bit arrays (1001 and 1203 bits, numpy arrays) that agree on their first and last bits, one after the other
+    J.append(dict(side="long-history", L=1001))
+    if tier != "quick":
+        J.append(dict(side="long-history", L=1203))
     # wide integer-typed paths: beyond 2^53 (binary64) and 2^63 (int64) -- machine-number pitfalls
     for L in ((56,) if tier == "quick" else (54, 56, 64)):
         for pat in ("max", "mix"):
@@ -85,8 +89,54 @@ def wide_symbols(n, base, pattern, name):
     return out
 
 
+def body_long_history(e, L, cfg):
+    """concrete probe (bug hunting, not deciding): conversions of long inputs that differ only in the middle must not be confused
+    (numpy abbreviates the text of arrays of more than 1000 elements) -- same process, one after the other, both number types"""
+    n = cfg["L"]
+    a1 = [(i * 7 + i // 3) % 2 for i in range(n)]
+    a2 = list(a1)
+    for i in range(n // 2 - 5, n // 2 + 5):
+        a2[i] = 1 - a2[i]
+    for is_string in (True,):      # numpy arrays go through the string path (this is how encode calls it); the integer path takes lists
+        for bits in (a1, a2):
+            val = 0
+            for b in bits:
+                val = val * 2 + b
+            try:
+                got = L.bit_to_number(symnp.array(bits), is_string=is_string)
+            except core.Abort:
+                raise
+            except core.Inconclusive:
+                raise
+            except Exception as ex:
+                return {"status": "viol", "why": "bit_to_number raised %s on a %d-bit array" % (type(ex).__name__, n), "cex": {"kind": "conv", "fn": "long-history", "L": n}}
+            if core.is_sym(got):
+                got = core.concrete_int(got)
+            if _decimal_of(got) != _decimal_of(val):
+                return {"status": "viol", "why": "second %d-bit array converted to the first array's number (is_string=%s)" % (n, is_string),
+                        "cex": {"kind": "conv", "fn": "long-history", "L": n}}
+    return {"status": "ok", "sample": {"long-history": "two %d-bit numpy arrays differing in the middle, string path" % n}}
+
+
+def _decimal_of(v):
+    """decimal rendering without the interpreter's int <-> str limit getting in the way"""
+    if isinstance(v, str):
+        return str.__str__(v)
+    import sys
+    old = sys.get_int_max_str_digits() if hasattr(sys, "get_int_max_str_digits") else None
+    try:
+        if old is not None:
+            sys.set_int_max_str_digits(0)
+        return str(int(v))
+    finally:
+        if old is not None:
+            sys.set_int_max_str_digits(old)
+
+
 def body(e, L, cfg):
     side = cfg["side"]
+    if side == "long-history":
+        return body_long_history(e, L, cfg)
     if side == "bits":
         n = cfg["L"]
         bs = oracles.bits(n) if not cfg.get("int_only") else wide_symbols(n, 2, cfg.get("pattern", "max"), "m")
